@@ -1185,8 +1185,12 @@ class App:
             try:
                 err_handler(req, resp, ex, params)
             except HTTPStatus as status:
+                # NOTE: Whatever the handler drafted before raising is
+                #   discarded too; the status is rendered on its own.
+                resp.text = resp.data = resp.media = None
                 self._compose_status_response(req, resp, status)
             except HTTPError as error:
+                resp.text = resp.data = resp.media = None
                 self._compose_error_response(req, resp, error)
 
             return True
